@@ -1,7 +1,8 @@
 //! Binding of spec/Nft.tla (C10, C11): three NFT flavours.
 //!
 //! * base        — thin contract below (Base::sequential_mint, Base::mint, default NonFungibleToken
-//!                 and NonFungibleBurnable, i.e. 1:1 forwards to Base::*);
+//!                 and NonFungibleBurnable, i.e. 1:1 forwards to Base::*) and the real
+//!                 nft-sequential-minting example (sequential mint only);
 //! * enumerable  — the real nft-enumerable example (sequential mint only) and a thin contract that
 //!                 additionally exposes Enumerable::non_sequential_mint;
 //! * consecutive — the real nft-consecutive example (batch_mint(to, amount)).
@@ -18,6 +19,8 @@ use verif_harness::*;
 mod ex_enum;
 #[path = "/repo/examples/nft-consecutive/src/contract.rs"]
 mod ex_cons;
+#[path = "/repo/examples/nft-sequential-minting/src/contract.rs"]
+mod ex_seq;
 
 mod thin_base {
     use soroban_sdk::{contract, contractimpl, Address, Env, String};
@@ -177,6 +180,7 @@ impl Sys {
         let st = |x: &str| SStr::from_str(&e, x);
         let c = match (fl, imp) {
             ("base", "thin") => e.register(thin_base::BaseNft, (st("https://x/"), st("n"), st("s"))),
+            ("base", "example") => e.register(ex_seq::ExampleContract, (st("https://x/"), st("n"), st("s"), admin.clone())),
             ("enumerable", "thin") => e.register(thin_enum::EnumNft, (st("https://x/"), st("n"), st("s"))),
             ("enumerable", "example") => {
                 e.register(ex_enum::ExampleContract, (st("https://x/"), st("n"), st("s"), admin.clone()))
@@ -367,7 +371,7 @@ impl Sys {
                 let to = acct("to");
                 let (f, a): (&str, SVec<Val>) = match (kind, self.fl.as_str(), self.imp.as_str()) {
                     ("mint_seq", _, "thin") => ("mint_seq", args(&e, (to,))),
-                    ("mint_seq", "enumerable", "example") => ("mint", args(&e, (to,))),
+                    ("mint_seq", "enumerable", "example") | ("mint_seq", "base", "example") => ("mint", args(&e, (to,))),
                     ("mint_id", _, "thin") => ("mint_id", args(&e, (to, rid))),
                     ("batch", "consecutive", _) => ("batch_mint", args(&e, (to, n(op, "n") as u32))),
                     _ => ("", args(&e, ())),
@@ -671,7 +675,8 @@ fn main() {
                     None => match s(&b.ops[0], "fl") {
                         // (min_temp_entry_ttl = 16 = the model's MinTempTtl: an approval entry outlives
                         // a short explicit expiry, so only the explicit comparison protects)
-                        "base" => run_ops(&mut t, "base", "thin", 16, &b.ops),
+                        // (the nft-sequential-minting example has no mint with an explicit id)
+                        "base" => run_ops(&mut t, "base", if has("mint_id") || bi % 2 == 0 { "thin" } else { "example" }, 16, &b.ops),
                         "enumerable" => {
                             let imp = if has("mint_id") { "thin" } else { "example" };
                             run_ops(&mut t, "enumerable", imp, 16, &b.ops)
@@ -693,6 +698,7 @@ fn main() {
             let mut r = StdRng::seed_from_u64(seed);
             for run in 0..runs {
                 let (fl, imp) = match run % 5 {
+                    0 if (run / 5) % 2 == 1 => ("base", "example"),
                     0 => ("base", "thin"),
                     1 => ("enumerable", "example"),
                     2 => ("enumerable", "thin"),
